@@ -297,6 +297,41 @@ Definition walk_elems : list arr_elem -> list arr_elem * flags :=
   fix go (l : list arr_elem) : list arr_elem * flags :=
     match l with [] => ([], F0) | x :: t => let '(x', f1) := walk_elem f x in let '(t', f2) := go t in (x' :: t', fo f1 f2) end.
 
+Lemma walk_call_eq : forall g args o, walk f (ECall g args o) =
+  let '(g', f1) := walk f g in let '(l, f2) := walk_args args in
+  let '(e2, fl2) := apply_f f (ECall g' l o) in (e2, fo (fo f1 f2) fl2).
+Proof.
+  intros.
+  transitivity (let '(e1, fl1) := (let '(g', f1) := walk f g in let '(l, f2) := walk_args args in (ECall g' l o, fo f1 f2)) in
+                let '(e2, fl2) := apply_f f e1 in (e2, fo fl1 fl2)); [reflexivity|].
+  destruct (walk f g); destruct (walk_args args); reflexivity.
+Qed.
+Lemma walk_new_eq : forall g args, walk f (ENew g args) =
+  let '(g', f1) := walk f g in let '(l, f2) := walk_args args in
+  let '(e2, fl2) := apply_f f (ENew g' l) in (e2, fo (fo f1 f2) fl2).
+Proof.
+  intros.
+  transitivity (let '(e1, fl1) := (let '(g', f1) := walk f g in let '(l, f2) := walk_args args in (ENew g' l, fo f1 f2)) in
+                let '(e2, fl2) := apply_f f e1 in (e2, fo fl1 fl2)); [reflexivity|].
+  destruct (walk f g); destruct (walk_args args); reflexivity.
+Qed.
+Lemma walk_array_eq : forall l, walk f (EArray l) =
+  let '(l', fl) := walk_elems l in let '(e2, fl2) := apply_f f (EArray l') in (e2, fo fl fl2).
+Proof.
+  intros.
+  transitivity (let '(e1, fl1) := (let '(l', fl) := walk_elems l in (EArray l', fl)) in
+                let '(e2, fl2) := apply_f f e1 in (e2, fo fl1 fl2)); [reflexivity|].
+  destruct (walk_elems l); reflexivity.
+Qed.
+Lemma walk_args_cons : forall x t, walk_args (x :: t) = let '(x', f1) := walk_arg f x in let '(t', f2) := walk_args t in (x' :: t', fo f1 f2).
+Proof. reflexivity. Qed.
+Lemma walk_elems_cons : forall x t, walk_elems (x :: t) = let '(x', f1) := walk_elem f x in let '(t', f2) := walk_elems t in (x' :: t', fo f1 f2).
+Proof. reflexivity. Qed.
+Lemma walk_arg_eq : forall x, walk_arg f x = match x with Arg e => let '(e', fl) := walk f e in (Arg e', fl) | ArgSpread e => let '(e', fl) := walk f e in (ArgSpread e', fl) end.
+Proof. destruct x; reflexivity. Qed.
+Lemma walk_elem_eq : forall x, walk_elem f x = match x with AElem e => let '(e', fl) := walk f e in (AElem e', fl) | ASpread e => let '(e', fl) := walk f e in (ASpread e', fl) | AHole => (AHole, F0) end.
+Proof. destruct x; reflexivity. Qed.
+
 Lemma apply_f_ok2 : forall e, frag2 e -> refines e (fst (apply_f f e)) /\ frag2 (fst (apply_f f e)).
 Proof.
   intros e He. unfold apply_f. destruct (f e) as [|e'|e'|] eqn:E; cbn [fst].
@@ -347,37 +382,116 @@ Proof.
     node ltac:(apply refines_member; eauto) (G_member _ p opt Fo').
   - intros o k opt Fo [Ro Fo'] Fk [Rk Fk']. cbn [walk]. destruct (walk f o) as [o' fl1]. destruct (walk f k) as [k' fl2]. cbn [fst] in *.
     node ltac:(apply refines_index; eauto) (G_index _ _ opt Fo' Fk').
-  - (* call, identifier callee *) intros x args opt Fa [Ra Fa']. cbn [walk]. rewrite (apply_f_keep (EId x) I). cbv beta iota zeta.
-    fold walk_args. destruct (walk_args args) as [args' fl]. cbv beta iota zeta. cbn [fst] in *.
+  - (* call, identifier callee *) intros x args opt Fa [Ra Fa']. rewrite walk_call_eq. cbn [walk]. rewrite (apply_f_keep (EId x) I).
+    destruct (walk_args args) as [args' fl]. cbv beta iota zeta. cbn [fst] in *.
     node ltac:(apply refines_call; [apply crefines_refl | eauto]) (G_call_id x _ opt Fa').
-  - (* call, member callee *) intros o p mo args opt Fo [Ro Fo'] Fa [Ra Fa']. cbn [walk]. destruct (walk f o) as [o' fl0]. cbn [fst] in *.
-    rewrite (apply_f_keep (EMember o' p mo) I). cbv beta iota zeta. fold walk_args. destruct (walk_args args) as [args' fl]. cbv beta iota zeta. cbn [fst] in *.
+  - (* call, member callee *) intros o p mo args opt Fo [Ro Fo'] Fa [Ra Fa']. rewrite walk_call_eq. cbn [walk]. destruct (walk f o) as [o' fl0]. cbn [fst] in *.
+    rewrite (apply_f_keep (EMember o' p mo) I). destruct (walk_args args) as [args' fl]. cbv beta iota zeta. cbn [fst] in *.
     node ltac:(apply refines_call; [apply crefines_member; eauto | eauto]) (G_call_member _ p mo _ opt Fo' Fa').
-  - (* call of a parenthesised function expression *) intros i args opt Fa [Ra Fa']. cbn [walk].
-    rewrite (apply_f_keep (EFunc i) I). cbv beta iota zeta. rewrite (apply_f_keep (EParen (EFunc i)) I). cbv beta iota zeta.
-    fold walk_args. destruct (walk_args args) as [args' fl]. cbv beta iota zeta. cbn [fst] in *.
+  - (* call of a parenthesised function expression *) intros i args opt Fa [Ra Fa']. rewrite walk_call_eq. cbn [walk].
+    rewrite (apply_f_keep (EFunc i) I). cbv beta iota zeta. rewrite (apply_f_keep (EParen (EFunc i)) I).
+    destruct (walk_args args) as [args' fl]. cbv beta iota zeta. cbn [fst] in *.
     node ltac:(apply refines_call; [apply crefines_refl | eauto]) (G_call_fn i _ opt Fa').
-  - (* new *) intros g args Fg [Rg Fg'] Fa [Ra Fa']. cbn [walk]. destruct (walk f g) as [g' fl0]. cbn [fst] in *.
-    fold walk_args. destruct (walk_args args) as [args' fl]. cbv beta iota zeta. cbn [fst] in *.
+  - (* new *) intros g args Fg [Rg Fg'] Fa [Ra Fa']. rewrite walk_new_eq. destruct (walk f g) as [g' fl0]. cbn [fst] in *.
+    destruct (walk_args args) as [args' fl]. cbv beta iota zeta. cbn [fst] in *.
     node ltac:(apply refines_new; eauto) (G_new _ _ Fg' Fa').
-  - (* array *) intros l Fl [Rl Fl']. cbn [walk]. fold walk_elems. destruct (walk_elems l) as [l' fl]. cbv beta iota zeta. cbn [fst] in *.
+  - (* array *) intros l Fl [Rl Fl']. rewrite walk_array_eq. destruct (walk_elems l) as [l' fl]. cbv beta iota zeta. cbn [fst] in *.
     node ltac:(apply refines_array; eauto) (G_array _ Fl').
   - (* args *) cbn. split; constructor.
-  - intros e t Fe [Re Fe'] Ft [Rt Ft']. cbn [walk_args walk_arg]. fold walk_args.
+  - intros e t Fe [Re Fe'] Ft [Rt Ft']. rewrite walk_args_cons, walk_arg_eq.
     destruct (walk f e) as [e' f1]. destruct (walk_args t) as [t' f2]. cbn [fst] in *.
     split; constructor; auto. constructor; auto.
-  - intros e t Fe [Re Fe'] Ft [Rt Ft']. cbn [walk_args walk_arg]. fold walk_args.
+  - intros e t Fe [Re Fe'] Ft [Rt Ft']. rewrite walk_args_cons, walk_arg_eq.
     destruct (walk f e) as [e' f1]. destruct (walk_args t) as [t' f2]. cbn [fst] in *.
     split; constructor; auto. constructor; auto.
   - (* elems *) cbn. split; constructor.
-  - intros e t Fe [Re Fe'] Ft [Rt Ft']. cbn [walk_elems walk_elem]. fold walk_elems.
+  - intros e t Fe [Re Fe'] Ft [Rt Ft']. rewrite walk_elems_cons, walk_elem_eq.
     destruct (walk f e) as [e' f1]. destruct (walk_elems t) as [t' f2]. cbn [fst] in *.
     split; constructor; auto. constructor; auto.
-  - intros e t Fe [Re Fe'] Ft [Rt Ft']. cbn [walk_elems walk_elem]. fold walk_elems.
+  - intros e t Fe [Re Fe'] Ft [Rt Ft']. rewrite walk_elems_cons, walk_elem_eq.
     destruct (walk f e) as [e' f1]. destruct (walk_elems t) as [t' f2]. cbn [fst] in *.
     split; constructor; auto. constructor; auto.
-  - intros t Ft [Rt Ft']. cbn [walk_elems walk_elem]. fold walk_elems.
+  - intros t Ft [Rt Ft']. rewrite walk_elems_cons, walk_elem_eq.
     destruct (walk_elems t) as [t' f2]. cbn [fst] in *.
     split; constructor; auto. constructor.
 Qed.
 End Walk2.
+
+Lemma pass_loop_ok2 : forall f,
+  (forall e e', frag2 e -> (f e = Replace e' \/ f e = Modified e') -> refines e e' /\ frag2 e') ->
+  (forall e, f e <> Keep -> match e with EUnary _ _ | EDelete _ | EBinary _ _ _ | ELogical _ _ _ | ESeq _ _ => True | _ => False end) ->
+  forall n e, frag2 e -> refines e (fst (pass_loop f n e)) /\ frag2 (fst (pass_loop f n e)).
+Proof.
+  intros f Hf Hfold. induction n as [|k IH]; intros e He; cbn [pass_loop].
+  - cbn [fst]. split; [apply refines_refl | exact He].
+  - destruct (proj1 (walk_ok2 f Hf Hfold) e He) as [R Fr]. destruct (walk f e) as [e' [ch un]]. cbn [fst] in *.
+    destruct ch.
+    + destruct (IH e' Fr) as [R2 F2]. destruct (pass_loop f k e') as [e'' un']. cbn [fst] in *.
+      split; [eapply frefines_trans; eauto | exact F2].
+    + cbn [fst]. split; assumption.
+Qed.
+
+Lemma fold_expression_head : forall fixd fixr fixo e, fold_expression fixd fixr fixo e <> Keep ->
+  match e with EUnary _ _ | EDelete _ | EBinary _ _ _ | ELogical _ _ _ | ESeq _ _ => True | _ => False end.
+Proof.
+  intros fixd fixr fixo e H. unfold fold_expression in H. destruct (as_lit e); [congruence|].
+  destruct e; try congruence; exact I.
+Qed.
+
+Lemma fold_expression_ok2 : forall fixr fixo e e', frag2 e ->
+  (fold_expression true fixr fixo e = Replace e' \/ fold_expression true fixr fixo e = Modified e') ->
+  refines e e' /\ frag2 e'.
+Proof.
+  intros fixr fixo e e' He H. unfold fold_expression in H.
+  destruct (as_lit e) as [l|] eqn:El; [destruct H; discriminate|].
+  destruct e; try (destruct H; discriminate).
+  - (* unary *)
+    destruct H as [H|H].
+    + split; [apply sof_refines; intros; eapply fold_unary_sound_lem; eauto|]. apply frag_frag2.
+      unfold fold_unary in H. destruct (as_lit e); try discriminate.
+      destruct op; try (destruct (unary_op fold_ops _ _ fold_state); try discriminate; eapply lit_action_frag; eauto).
+      inversion H; subst. apply undef_frag.
+    + unfold fold_unary in H. destruct (as_lit e); try discriminate.
+      destruct op; try discriminate;
+        destruct (unary_op fold_ops _ _ fold_state); try discriminate; unfold lit_action in H;
+        repeat match type of H with context [match ?x with _ => _ end] => destruct x; try discriminate end.
+  - inversion He.
+  - (* binary *)
+    destruct H as [H|H].
+    + split; [apply sof_refines; intros; eapply fold_binary_sound_lem; eauto|]. apply frag_frag2.
+      unfold fold_binary in H. destruct (as_lit e1); try discriminate. destruct (as_lit e2); try discriminate.
+      cbn [negb andb] in H. unfold fold_binary_core in H.
+      destruct op; try discriminate; destruct (binary_op fold_ops _ _ _ fold_state); try discriminate; eapply lit_action_frag; eauto.
+    + unfold fold_binary in H. destruct (as_lit e1); try discriminate. destruct (as_lit e2); try discriminate.
+      cbn [negb andb] in H. unfold fold_binary_core in H.
+      destruct op; try discriminate; destruct (binary_op fold_ops _ _ _ fold_state); try discriminate; unfold lit_action in H;
+        repeat match type of H with context [match ?x with _ => _ end] => destruct x; try discriminate end.
+  - (* logical *)
+    inversion He; subst.
+    destruct H as [H|H].
+    + split; [apply shifted_refines; intros; eapply logical_sound_lem; eauto|].
+      unfold fold_logical in H. destruct (as_lit e1); try discriminate.
+      repeat match type of H with context [if ?c then _ else _] => destruct c; try discriminate end; inversion H; subst; assumption.
+    + unfold fold_logical in H. destruct (as_lit e1); try discriminate.
+      repeat match type of H with context [if ?c then _ else _] => destruct c; try discriminate end.
+  - (* comma *)
+    inversion He; subst.
+    destruct H as [H|H].
+    + split; [apply shifted_refines; intros; eapply comma_replace_sound_lem; eauto|].
+      unfold fold_comma in H. destruct (as_lit e1) as [la|]; try discriminate.
+      destruct (as_lit e2); [inversion H; subst; assumption | destruct la; discriminate].
+    + split; [apply late_refines; intros; eapply comma_modified_sound_lem; eauto|].
+      unfold fold_comma in H. destruct (as_lit e1) as [la|]; try discriminate.
+      destruct (as_lit e2); try discriminate.
+      assert (e' = ESeq undef_lit e2) by (destruct la; inversion H; reflexivity). subst.
+      constructor; [apply frag_frag2; apply undef_frag | assumption].
+Qed.
+
+(* constant folding over the larger fragment *)
+Theorem constant_folding_preserves2_lem : forall fixr fixo e, frag2 e ->
+  refines e (fst (pass_loop (fold_expression true fixr fixo) MAX_PASS_ITERATIONS e)) /\
+  frag2 (fst (pass_loop (fold_expression true fixr fixo) MAX_PASS_ITERATIONS e)).
+Proof.
+  intros fixr fixo e He.
+  apply pass_loop_ok2; [apply fold_expression_ok2 | apply fold_expression_head | exact He].
+Qed.
